@@ -256,6 +256,109 @@ def render_coerce() -> str:
     return "\n".join(lines)
 
 
+# ---------------------------------------------------------------------------------------------
+# the scalar pipeline (koda_validate/_internal.py) -> Koda.IStmt (lean/KodaModel/PyImp.lean)
+
+OUT_SCALAR = os.path.join(os.path.dirname(OUT), "ScalarSrc.lean")
+IVARS = {"val", "result", "errors", "proc", "pred"}
+IATTRS = {"coerce": "coerce", "_TYPE": "TYPE", "_type_err": "typeErr", "preprocessors": "preprocessors",
+          "predicates": "predicates", "predicates_async": "predicatesAsync", "_disallow_synchronous": "disallowSync",
+          "__class__": "cls", "is_just": "isJust", "val": "valA", "compatible_types": "compatibleTypes",
+          "validate_async": "validateAsync", "extend": "extend"}
+IGLOBALS = {"type": "type", "Invalid": "Invalid", "CoercionErr": "CoercionErr", "PredicateErrs": "PredicateErrs",
+            "_async_predicates_warning": "asyncPredicatesWarning", "instance": "instance_", "type_": "type_",
+            "type_err": "typeErr_"}
+
+
+class ITr:
+    def exp(self, e: ast.expr) -> str:
+        if isinstance(e, ast.Name):
+            if e.id == "self":
+                return ".self"
+            if e.id in IVARS:
+                return f"(.var .{e.id})"
+            if e.id in IGLOBALS:
+                return f"(.glob .{IGLOBALS[e.id]})"
+            return f"(.glob (.other {lstr(e.id)}))"
+        if isinstance(e, ast.Constant) and isinstance(e.value, bool):
+            return f"(.bool {'true' if e.value else 'false'})"
+        if isinstance(e, ast.Attribute):
+            a = f".{IATTRS[e.attr]}" if e.attr in IATTRS else f"(.other {lstr(e.attr)})"
+            return f"(.attr {self.exp(e.value)} {a})"
+        if isinstance(e, ast.Call) and not e.keywords and 1 <= len(e.args) <= 3 and not any(isinstance(a, ast.Starred) for a in e.args):
+            return f"(.call{len(e.args)} {self.exp(e.func)} {' '.join(self.exp(a) for a in e.args)})"
+        if isinstance(e, ast.UnaryOp) and isinstance(e.op, ast.Not):
+            return f"(.not {self.exp(e.operand)})"
+        if isinstance(e, ast.Compare) and len(e.ops) == 1 and isinstance(e.ops[0], (ast.Is, ast.IsNot)):
+            op = ".is_" if isinstance(e.ops[0], ast.Is) else ".isNot"
+            return f"({op} {self.exp(e.left)} {self.exp(e.comparators[0])})"
+        if isinstance(e, ast.Tuple) and len(e.elts) == 2:
+            return f"(.pair {self.exp(e.elts[0])} {self.exp(e.elts[1])})"
+        if (isinstance(e, ast.ListComp) and len(e.generators) == 1 and not e.generators[0].is_async
+                and len(e.generators[0].ifs) == 1 and isinstance(e.generators[0].target, ast.Name)
+                and e.generators[0].target.id in IVARS):
+            g = e.generators[0]
+            return f"(.listComp {self.exp(e.elt)} .{g.target.id} {self.exp(g.iter)} {self.exp(g.ifs[0])})"
+        if isinstance(e, ast.Await):
+            return f"(.await {self.exp(e.value)})"
+        return f"(.unsupported {lstr(ast.dump(e)[:160])})"
+
+    def stmt(self, s: ast.stmt) -> str:
+        if isinstance(s, ast.Assign) and len(s.targets) == 1 and isinstance(s.targets[0], ast.Name) and s.targets[0].id in IVARS:
+            return f"(.assign .{s.targets[0].id} {self.exp(s.value)})"
+        if isinstance(s, ast.AnnAssign) and isinstance(s.target, ast.Name) and s.target.id in IVARS and s.value is not None:
+            return f"(.assign .{s.target.id} {self.exp(s.value)})"
+        if isinstance(s, ast.If):
+            return f"(.ite {self.exp(s.test)} {self.block(s.body)} {self.block(s.orelse)})"
+        if isinstance(s, ast.For) and isinstance(s.target, ast.Name) and s.target.id in IVARS and not s.orelse:
+            return f"(.forIn .{s.target.id} {self.exp(s.iter)} {self.block(s.body)})"
+        if isinstance(s, ast.Return) and s.value is not None:
+            return f"(.ret {self.exp(s.value)})"
+        if isinstance(s, ast.Expr):
+            return f"(.expr {self.exp(s.value)})"
+        return f"(.unsupported {lstr(ast.dump(s)[:160])})"
+
+    def block(self, body: List[ast.stmt]) -> str:
+        body = [s for s in body if not (isinstance(s, ast.Expr) and isinstance(s.value, ast.Constant))]
+        return "[" + ", ".join(self.stmt(s) for s in body) + "]"
+
+
+def render_scalar() -> str:
+    tree = ast.parse(open(os.path.join(PKG, "_internal.py")).read())
+    bodies: Dict[str, str] = {"scalarSync": '[.unsupported "not found"]', "scalarAsync": '[.unsupported "not found"]',
+                              "simpleInner": '[.unsupported "not found"]'}
+    pins: Dict[str, str] = {"disallowInit": "<not found>", "fastPathCond": "<not found>", "fastPathAssign": "<not found>",
+                            "simpleInnerParams": "<not found>"}
+    for node in tree.body:
+        if isinstance(node, ast.ClassDef) and node.name == "_ToTupleStandardValidator":
+            for item in node.body:
+                if isinstance(item, ast.FunctionDef) and item.name == "_validate_to_tuple":
+                    bodies["scalarSync"] = ITr().block(item.body) if [a.arg for a in item.args.args] == ["self", "val"] else '[.unsupported "signature"]'
+                if isinstance(item, ast.AsyncFunctionDef) and item.name == "_validate_to_tuple_async":
+                    bodies["scalarAsync"] = ITr().block(item.body) if [a.arg for a in item.args.args] == ["self", "val"] else '[.unsupported "signature"]'
+                if isinstance(item, ast.FunctionDef) and item.name == "__init__":
+                    for st in ast.walk(item):
+                        if (isinstance(st, ast.Assign) and len(st.targets) == 1 and ast.unparse(st.targets[0]) == "self._disallow_synchronous"):
+                            pins["disallowInit"] = ast.unparse(st.value)
+                        if isinstance(st, ast.If) and any("_simple_type_validator" in ast.unparse(b) for b in st.body):
+                            pins["fastPathCond"] = ast.unparse(st.test)
+                            pins["fastPathAssign"] = " ; ".join(ast.unparse(b) for b in st.body)
+        if isinstance(node, ast.FunctionDef) and node.name == "_simple_type_validator":
+            inner = [x for x in node.body if isinstance(x, ast.FunctionDef)]
+            if len(inner) == 1 and [a.arg for a in inner[0].args.args] == ["val"]:
+                bodies["simpleInner"] = ITr().block(inner[0].body)
+                pins["simpleInnerParams"] = ", ".join(a.arg for a in node.args.args) + " -> " + " ; ".join(
+                    ast.unparse(x) for x in node.body if not isinstance(x, ast.FunctionDef))
+    lines = ["/- GENERATED by harness/pysrc.py from the current source of /repo/koda_validate/_internal.py — do not edit -/",
+             "import KodaModel.PyImp", "", "namespace Koda.Src", ""]
+    for k, v in bodies.items():
+        lines += [f"def {k} : List IStmt :=", f"  {v}", ""]
+    for k, v in pins.items():
+        lines += [f"def {k} : String := {lstr(v)}", ""]
+    lines += ["end Koda.Src", ""]
+    return "\n".join(lines)
+
+
 def render() -> str:
     found = collect()
     lines = ["/- GENERATED by harness/pysrc.py from the current source of /repo/koda_validate — do not edit -/",
@@ -274,7 +377,7 @@ def render() -> str:
 
 def regenerate() -> bool:
     changed = False
-    for path, new in ((OUT, render()), (OUT_COERCE, render_coerce())):
+    for path, new in ((OUT, render()), (OUT_COERCE, render_coerce()), (OUT_SCALAR, render_scalar())):
         old = open(path).read() if os.path.exists(path) else None
         if new != old:
             with open(path, "w") as f:
